@@ -31,9 +31,10 @@ RULES = {
     "R10": "view discipline: ScreenSubset / Plate read the parent's per-experiment attributes only through their selection and never delegate a question to the parent screen",
     "R11": "every row number stored in the sampler's per-sample / per-treatment index lists derives from its row count at that moment",
     "R12": "the derived screen attributes this property's code relies on (is_observed, size) have their documented definitions in ScreenBase and every override",
+    "R14": "the samplers keep their training rows: no method other than the constructor (followed through self-calls) re-binds or empties a holder list the ingestion appends to",
     "R13": "the training command reads the screen's outcomes only through subset_observed(): no read of the whole screen's observations (masked entries included) can influence or abort training",
 }
-MIN = {"R1": 1, "R2": 3, "R3": 1, "R4": 2, "R5": 3, "R6": 1, "R7": 2, "R8": 1, "R9": 2, "R10": 15, "R11": 3, "R12": 2, "R13": 1}
+MIN = {"R14": 8, "R1": 1, "R2": 3, "R3": 1, "R4": 2, "R5": 3, "R6": 1, "R7": 2, "R8": 1, "R9": 2, "R10": 15, "R11": 3, "R12": 2, "R13": 1}
 TRUSTED = ["resolved call graph is an over-approximation of the dynamic one (typed resolution + name-CHA fallback + "
            "all overriding subclasses); classes chosen by name on the command line are subclasses of the declared bases",
            "numpy comparison semantics: `x >= 0` is False for NaN"]
@@ -858,7 +859,78 @@ def r13(ctx):
     ctx.ok("R13", f"{f.site()}::outcomes-only-through-the-observed-subset", f"`{D}` is used for subset_observed() and the experiment space only")
 
 
-RULE_FUNCS = [r1, r2, r3, r4, r5, r6, r7_c04, r8, r9, r10, r11, r_derived, r13]
+def r14(ctx):
+    """`trained on exactly the observed experiments` over a history: what the ingestion appended stays until the model object goes.  The samplers
+    keep the rows in holder lists (`self.y.append(..)`, `self.cline_idxs[c].append(n)`); sampling.sample calls reset_model() before the first
+    step, so a reset (or any other method) that re-binds or empties a holder - directly or through a shared `_init_state()` helper -
+    silently trains the chain on nothing.  Holders are read off the appends; every method other than the constructor is followed through
+    its self-calls."""
+    R = ctx.R
+    classes = sorted({f.class_q for f in R.funcs.values() if f.class_q and f.mod.startswith("batchie.models.") and f.name == "reset_model"})
+    ctx.need(len(classes) >= 2, "models: fewer classes with reset_model() than the reviewed tree has")
+    n_h = 0
+    for cq in classes:
+        meths = {f.name: f for f in R.funcs.values() if f.class_q == cq}
+        holders = set()
+        for f in meths.values():
+            for c in calls(f.node, tail="append"):
+                v = c.func.value
+                if isinstance(v, ast.Subscript):
+                    v = v.value
+                if isinstance(v, ast.Attribute) and U(v.value) == "self":
+                    holders.add(v.attr)
+        if not holders:
+            continue
+        n_h += 1
+
+        def rebinds(f):
+            out = []
+            for n in walk_own(f.node):
+                tg = []
+                if isinstance(n, ast.Assign):
+                    tg = [t for t0 in n.targets for t in (t0.elts if isinstance(t0, (ast.Tuple, ast.List)) else [t0])]
+                elif isinstance(n, (ast.AnnAssign, ast.AugAssign)):
+                    tg = [n.target]
+                elif isinstance(n, ast.Delete):
+                    tg = [t.value if isinstance(t, ast.Subscript) else t for t in n.targets]
+                for t in tg:
+                    if isinstance(t, ast.Attribute) and U(t.value) == "self" and t.attr in holders:
+                        out.append(f"`{U(n)[:60]}` (line {n.lineno})")
+                if isinstance(n, ast.Call) and isinstance(n.func, ast.Attribute) and n.func.attr in ("clear", "pop", "remove") and isinstance(n.func.value, ast.Attribute) \
+                        and U(n.func.value.value) == "self" and n.func.value.attr in holders:
+                    out.append(f"`{U(n)[:60]}` (line {n.lineno})")
+            return out
+
+        # self-calls as written (the engine may have expanded a helper call in place: read the module's own text)
+        called_inside = set()
+        for cd in ast.walk(ast.parse(R.sources[cq.rsplit(".", 1)[0]])):
+            if isinstance(cd, ast.ClassDef) and cd.name == cq.rsplit(".", 1)[1]:
+                called_inside = {c.func.attr for c in ast.walk(cd) if isinstance(c, ast.Call) and isinstance(c.func, ast.Attribute) and U(c.func.value) == "self" and c.func.attr in meths}
+        for name, f in sorted(meths.items()):
+            if name == "__init__":
+                continue
+            if name.startswith("_") and not name.startswith("__") and name in called_inside:
+                continue          # a private helper is judged through the methods that call it (one only the constructor calls initialises, it does not reset)
+            ctx.functions.add(f.qname)
+            seen, todo, chain = {name}, [name], {name: [name]}
+            hits = []
+            while todo:
+                m_ = todo.pop()
+                g = meths[m_]
+                for h in rebinds(g):
+                    hits.append(" -> ".join(chain[m_]) + ": " + h)
+                for c in calls(g.node):
+                    if isinstance(c.func, ast.Attribute) and U(c.func.value) == "self" and c.func.attr in meths and c.func.attr not in seen:
+                        seen.add(c.func.attr)
+                        chain[c.func.attr] = chain[m_] + [c.func.attr]
+                        todo.append(c.func.attr)
+            ctx.check("R14", f"{f.site()}::keeps-training-rows", not hits, f"does not re-bind or empty the holders {sorted(holders)}",
+                      f"re-binds / empties what the ingestion appended ({'; '.join(hits[:3])}): the rows added before this call are gone - "
+                      f"sampling.sample calls reset_model() before the first step")
+    ctx.need(n_h >= 2, "models: the holder lists of the two legacy samplers were not found (no `self.X.append(..)`)")
+
+
+RULE_FUNCS = [r1, r2, r3, r4, r5, r6, r7_c04, r8, r9, r10, r11, r_derived, r13, r14]
 
 
 def _rep(a, b):
@@ -870,6 +942,8 @@ def _rep(a, b):
 
 
 WITNESSES = [
+    ("reset_model empties the observation list", "batchie.models.sparse_combo",
+     _rep("    def reset_model(self):\n        self.W = self.W * 0.0", "    def reset_model(self):\n        self.y = []\n        self.W = self.W * 0.0"), ["R14"]),
     ("training command checks the whole screen's outcomes", "batchie.cli.train_model",
      _rep("    data = Screen.load_h5(args.data)\n", "    data = Screen.load_h5(args.data)\n    if not np.isfinite(data.observations).all():\n        raise ValueError(\"non-finite outcomes\")\n"), ["R13"]),
     ("interaction model reads the screen-level effect table", "batchie.models.sparse_combo_interaction",
